@@ -235,13 +235,16 @@ theorem inv_updateTable (c : Client) (name : Bytes) (chs : List IndexChange) (hc
     simp only
     split
     · exact hc
-    · have hk := updateTable_go_keeps chs { t with attrs := (chs.flatMap fun ch => match ch with | .create d => defsOf d.key | .delete _ => []).foldl (fun acc (n, ty) => ainsert n ty acc) t.attrs }
-      have hinv : TableInv (updateTable.go { t with attrs := (chs.flatMap fun ch => match ch with | .create d => defsOf d.key | .delete _ => []).foldl (fun acc (n, ty) => ainsert n ty acc) t.attrs } chs).1 :=
+    · generalize List.foldl _ t.attrs _ = A
+      have hk := updateTable_go_keeps chs { t with attrs := A }
+      have hinv : TableInv (updateTable.go { t with attrs := A } chs).1 :=
         tableInv_of_same (hc name t ht) hk.1 hk.2
       generalize updateTable.go _ chs = res at hinv
       obtain ⟨t', e⟩ := res
       simp only at hinv ⊢
-      cases e <;> exact inv_setTable c name t' hc hinv
+      cases e
+      · exact inv_setTable c name t' hc hinv
+      · exact hc
 
 /-! ### every operation, every history -/
 
@@ -633,15 +636,18 @@ theorem step_inv2 (c : Client) (op : Op) (hc : ClientInv2 c) : ClientInv2 (step 
       simp only
       split
       · exact hc
-      · have hk := updateTable_go_keeps chs { t with attrs := (chs.flatMap fun ch => match ch with | .create d => defsOf d.key | .delete _ => []).foldl (fun acc (n, ty) => ainsert n ty acc) t.attrs }
-        have hinv : TableInv (updateTable.go { t with attrs := (chs.flatMap fun ch => match ch with | .create d => defsOf d.key | .delete _ => []).foldl (fun acc (n, ty) => ainsert n ty acc) t.attrs } chs).1 :=
+      · generalize List.foldl _ t.attrs _ = A
+        have hk := updateTable_go_keeps chs { t with attrs := A }
+        have hinv : TableInv (updateTable.go { t with attrs := A } chs).1 :=
           tableInv_of_same (hc name t ht).1 hk.1 hk.2
-        have hix : IxInv (updateTable.go { t with attrs := (chs.flatMap fun ch => match ch with | .create d => defsOf d.key | .delete _ => []).foldl (fun acc (n, ty) => ainsert n ty acc) t.attrs } chs).1 :=
+        have hix : IxInv (updateTable.go { t with attrs := A } chs).1 :=
           ixInv_updateTable_go chs _ (ixInv_of_indexes (hc name t ht).2 rfl)
         generalize updateTable.go _ chs = res at hinv hix
         obtain ⟨t', e⟩ := res
         simp only at hinv hix ⊢
-        cases e <;> exact inv2_setTable c name t' hc hinv hix
+        cases e
+        · exact inv2_setTable c name t' hc hinv hix
+        · exact hc
   | clearTable n =>
     simp only [step, withTable]
     cases alookup n c.tables with
@@ -1274,20 +1280,22 @@ theorem step_inv3 (c : Client) (op : Op) (hc : ClientInv3 c) (hsafe : SafeOp c o
       · exact hc
       · rename_i hr
         rw [if_neg hr] at hsafe
-        generalize hA : (chs.flatMap fun ch => match ch with | .create d => defsOf d.key | .delete _ => []).foldl (fun acc (n, ty) => ainsert n ty acc) t.attrs = A at hsafe ⊢
+        generalize List.foldl _ t.attrs _ = A at hsafe ⊢
         have hattrs := updateTable_go_attrs chs { t with attrs := A }
-        have hkeep : AttrsKeep t A := by
-          have := hsafe t (updateTable.go { t with attrs := A } chs).1 rfl
-          rw [hattrs] at this
-          apply this
-          generalize updateTable.go { t with attrs := A } chs = res
-          obtain ⟨t', e⟩ := res
-          cases e <;> simp [alookup_ainsert_self]
-        have hinv := tblInv_updateTable_go chs { t with attrs := A } (tblInv_attrs t A (hc name t ht) hkeep)
-        generalize updateTable.go { t with attrs := A } chs = res at hinv
-        obtain ⟨t', e⟩ := res
-        simp only at hinv ⊢
-        cases e <;> exact inv3_setTable c name t' hc hinv
+        cases hres : updateTable.go { t with attrs := A } chs with
+        | mk t' e =>
+          rw [hres] at hsafe hattrs
+          cases e with
+          | some cls => exact hc
+          | none =>
+            simp only at hsafe hattrs ⊢
+            have hkeep : AttrsKeep t A := by
+              have := hsafe t t' rfl (by simp [alookup_ainsert_self])
+              rw [hattrs] at this
+              exact this
+            have hinv := tblInv_updateTable_go chs { t with attrs := A } (tblInv_attrs t A (hc name t ht) hkeep)
+            rw [hres] at hinv
+            exact inv3_setTable c name t' hc hinv
   | clearTable n =>
     simp only [step, withTable]
     cases alookup n c.tables with
@@ -1408,9 +1416,14 @@ theorem safeOp_always (c : Client) (op : Op) : SafeOp c op := by
       generalize updateTable.go { t with attrs := A } chs = res at ht' hattrs
       obtain ⟨t2, e⟩ := res
       simp only at ht' hattrs
-      have : t' = t2 := by
-        cases e <;> (simp only [alookup_ainsert_self, Option.some.injEq] at ht'; exact ht'.symm)
-      rw [this, hattrs]; exact hkeep
+      cases e with
+      | none =>
+        simp only [alookup_ainsert_self, Option.some.injEq] at ht'
+        rw [← ht', hattrs]; exact hkeep
+      | some cls =>
+        simp only at ht'
+        rw [ht] at ht'; cases ht'
+        exact attrsKeep_refl t
   | _ => trivial
 
 theorem safeRun_always : ∀ (ops : List Op) (c : Client), SafeRun c ops
